@@ -370,7 +370,8 @@ func (e *Engine) convert(from, to types.Type, x Value) Value {
 				}
 				return Float{F: float64(v.Val)}
 			}
-			return Float{Opaque: true}
+			// integer-valued float: remember the integer so that a conversion back is exact
+			return Float{Opaque: true, I: st.Resize(v, 64, isSigned(from))}
 		case isStringT(to):
 			// string(rune)
 			if v.IsConst() {
@@ -391,6 +392,9 @@ func (e *Engine) convert(from, to types.Type, x Value) Value {
 		case isIntegerT(to):
 			w := intWidth(to)
 			if v.Opaque {
+				if v.I != nil {
+					return st.Resize(v.I, w, true)
+				}
 				return e.fresh("f2i", w)
 			}
 			if isSigned(to) {
